@@ -117,10 +117,89 @@ def chdir(path):
         os.chdir(old)
 
 
+# command-line grammar of the entry points: short spelling -> (long spelling, flag | one | many)
+CLI = {
+    "chef": {"-o": ("--outdir", "one"), "-r": ("--recipe", "one"), "-s": ("--species", "many"), "-R": ("--reactions", "many"),
+             "-m": ("--mech", "one"), "-p": ("--pressure", "one"), "-k": ("--kept_fields", "one")},
+    "chk2plt": {"-c": ("--checkpoint", "one"), "-p": ("--plotfile_ref", "one"), "-s": ("--species", "many"),
+                "-ip": ("--include_gradp", "flag"), "-ir": ("--include_reactions", "flag"), "-f": ("--floor_massfracs", "flag"),
+                "-o": ("--output", "one")},
+    "colander": {"-v": ("--variables", "many"), "-l": ("--limit_level", "one"), "-s": ("--serial", "flag"), "-o": ("--output", "one")},
+    "combine": {"-p1": ("--plotfile1", "one"), "-p2": ("--plotfile2", "one"), "-v1": ("--vars1", "one"), "-v2": ("--vars2", "one"),
+                "-o": ("--output", "one"), "-s": ("--serial", "flag")},
+    "mandoline": {"-n": ("--normal", "one"), "-p": ("--position", "one"), "-v": ("--variables", "many"), "-L": ("--max_level", "one"),
+                  "-s": ("--serial", "flag"), "-f": ("--format", "one"), "-o": ("--output", "one"), "-c": ("--colormap", "one"),
+                  "-m": ("--minimum", "one"), "-M": ("--maximum", "one"), "-l": ("--log", "flag"), "-V": ("--verbose", "one")},
+    "menu": {"-hv": ("--has_var", "one"), "-e": ("--every", "flag"), "-d": ("--description", "flag"), "-m": ("--min_max", "flag"),
+             "-f": ("--finest_lv", "flag")},
+    "pestle": {"-v": ("--variable", "one"), "-l": ("--limit_level", "one"), "-vf": ("--volfrac", "flag")},
+    "taste": {"-l": ("--limit_level", "one"), "-nh": ("--no_bin_headers", "flag"), "-ns": ("--no_bin_shape", "flag"),
+              "-bd": ("--bin_data", "flag"), "-bc": ("--box_coords", "flag"), "-nf": ("--nofail", "flag"), "-v": ("--verbose", "one")},
+    "whip": {"-v": ("--variable", "one"), "-l": ("--limit_level", "one"), "-o": ("--outfile", "one"), "-d": ("--dtype", "one"),
+             "-y": ("--nochecks", "flag")},
+}
+ARGV_FORMS = {}     # spelling class -> times used (reported by the checks that drive entry points)
+
+
+def vary_argv(args):
+    """An equivalent spelling of a command line: option groups in another order, short / long / `--long=value` /
+    abbreviated long spellings, the positional argument first or last. What argparse makes of it is the same by
+    construction (the grammar above is the entry points' own); an invocation whose outcome changes with the
+    spelling is a defect of the entry point. Deterministic in the arguments; VERIF_ARGV=plain turns it off."""
+    import random, re
+    tab = CLI.get(os.path.basename(str(args[0]))) if args else None
+    if not tab or os.environ.get("VERIF_ARGV", "vary") == "plain":
+        return list(args)
+    byany = {}
+    for sh, (lo, kind) in tab.items():
+        byany[sh] = byany[lo] = (sh, lo, kind)
+    longs = [lo for lo, _ in tab.values()] + ["--help"]
+    groups, pos, i = [], [], 1
+    while i < len(args):
+        a = str(args[i])
+        name, eq = (a.split("=", 1) + [None])[:2] if a.startswith("--") else (a, None)
+        if name in byany:
+            sh, lo, kind = byany[name]
+            vals = [eq] if eq is not None else []
+            i += 1
+            if eq is None and kind != "flag":
+                while i < len(args) and not (str(args[i]) in byany or str(args[i]).split("=", 1)[0] in byany) and \
+                        (kind == "many" or not vals):
+                    vals.append(str(args[i])); i += 1
+            groups.append((sh, lo, kind, vals))
+        elif a.startswith("-") and not re.match(r"^-?\.?\d", a):
+            return list(args)          # a spelling outside the table: leave the line alone
+        else:
+            pos.append(a); i += 1
+    # a 'many' option directly followed by positionals in the original swallowed them there too: keep such lines
+    rng = random.Random(sha(list(map(str, args))))
+    rng.shuffle(groups)
+    out = []
+    for sh, lo, kind, vals in groups:
+        form = rng.choice(["short", "long", "eq", "abbrev"])
+        if kind == "one" and vals and (vals[0].startswith("-") or vals[0] == ""):
+            form = "eq"
+        if form == "abbrev":
+            k = next(k for k in range(4, len(lo) + 1) if sum(1 for x in longs if x.startswith(lo[:k])) == 1)
+            name = lo[:max(k, min(len(lo), k + rng.randint(0, 2)))]
+        else:
+            name = sh if form == "short" else lo
+        if kind == "one" and form == "eq" and vals:
+            out.append(f"{lo}={vals[0]}")
+        else:
+            out += [name] + vals
+        ARGV_FORMS[form if kind != "flag" or form in ("short", "long", "abbrev") else "long"] = \
+            ARGV_FORMS.get(form, 0) + 1
+    last_many = bool(groups) and groups[-1][2] == "many"
+    if pos and (last_many or rng.random() < 0.5):
+        return [args[0]] + pos + out
+    return [args[0]] + out + pos
+
+
 @contextlib.contextmanager
 def argv(args):
     old = sys.argv
-    sys.argv = list(args)
+    sys.argv = vary_argv(list(args))
     try:
         yield
     finally:
